@@ -13,6 +13,7 @@ import (
 	"math/rand"
 	"net"
 	"runtime"
+	"runtime/debug"
 	"sort"
 	"strings"
 	"sync"
@@ -623,6 +624,9 @@ func main() {
 		}
 		batch := cs[i:j]
 		y.Set(batch[0].YieldPm, 400)
+		// no garbage collection during a batch and its census: an unreachable socket would be closed
+		// by its finalizer, which hides exactly the leak the census looks for
+		gcOld := debug.SetGCPercent(-1)
 		var wg sync.WaitGroup
 		for _, c := range batch {
 			wg.Add(1)
@@ -634,6 +638,8 @@ func main() {
 		wg.Wait()
 		orders[y.OrderHash()] = true
 		census(batch, baseSockets)
+		debug.SetGCPercent(gcOld)
+		runtime.GC()
 	}
 	run.Extra("yield_points_hit", y.Hits())
 	run.Extra("distinct_yield_orderings", len(orders))
